@@ -326,6 +326,11 @@ func (w *World) implsOf(ifaceRel, ifaceName, method string) []*ssa.Function {
 				if types.Implements(t, it) {
 					if sel := w.Prog.MethodSets.MethodSet(t).Lookup(n.Obj().Pkg(), method); sel != nil {
 						if f := w.Prog.MethodValue(sel); f != nil && f.Blocks != nil && f.Synthetic == "" {
+							// a proven pass-through of a layer type is not an implementation of its own: C20.R19 judges it (the
+							// read-only metadata wrapper is a layer the rules know and inspect themselves)
+							if n.Obj().Name() != "readMetadata" && w.isExactPassThrough(f, ifaceName) {
+								continue
+							}
 							out = append(out, f)
 						}
 					}
